@@ -137,7 +137,7 @@ macro_rules! dispose_harness {
         #[kani::stub(RcInner::dealloc, rec_dealloc)]
         #[kani::stub(RcInner::decrement_weak, rec_decrement_weak)]
         #[kani::stub(RcInner::decrement_strong, rec_decrement_strong)]
-        #[kani::stub(crate::ebr_impl::internal::Local::unpin, crate::ebr_impl::internal::verif_internal::s_unpin_unreachable)]
+        #[kani::stub(crate::ebr_impl::internal::Local::unpin, crate::ebr_impl::internal::verif_cut::s_unpin_unreachable)]
         $(#[$m])*
         fn $name() { #[allow(unused_unsafe)] unsafe { $body } }
     };
@@ -229,6 +229,50 @@ fn dispose_chain_level() {
     kani::cover!(immediate && pnow.weaked(), "cover.chain.weaked_parent");
 }}
 
+/// tree-shaped node: two outgoing edges, handed out in order (first, next)
+struct C2 { first: AtomicRc<C2>, next: AtomicRc<C2> }
+impl Drop for C2 { fn drop(&mut self) { unsafe { DROPS += 1; DROPPED_WHO = self as *const C2 as usize; if POPS == 0 { POP_BEFORE_DROP = false; } } } }
+unsafe impl RcObject for C2 {
+    fn pop_edges(&mut self, out: &mut Vec<Rc<Self>>) {
+        unsafe { POPS += 1; D_AT_POP = State::from_raw(*(PARENT_WORD as *const u64)).destructed(); }
+        out.push(self.first.take());
+        out.push(self.next.take());
+    }
+}
+
+dispose_harness! {
+/// (a') a node with two edges whose FIRST edge is a (possibly tagged) null: the second, non-null
+/// edge is still cascaded in this pass (a null edge is skipped, it does not end the cascade).
+#[kani::unwind(7)]
+fn dispose_null_edge_then_child() {
+    EPOCH = kani::any();
+    kani::assume(EPOCH < (1usize << 62));
+    let c = EPOCH;
+    let child = RcInner::alloc(C2 { first: AtomicRc::null(), next: AtomicRc::null() }, 1);
+    let cs_: u32 = kani::any(); kani::assume(cs_ >= 1 && cs_ < (1 << 28));
+    let ce: usize = kani::any(); kani::assume(stamp_ok(ce, c));
+    *cell(&(*child).state) = State::from_raw(WEAK_COUNT).add_strong(cs_).with_epoch(ce).as_raw();
+    let le: usize = kani::any(); kani::assume(stamp_ok(le, c));
+    let link = Raw::from(child).with_high_tag(le);
+    let null_edge: Raw<C2> = Raw::null().with_tag(kani::any());
+    let parent = RcInner::alloc(C2 { first: AtomicRc::from(Rc::from_raw(null_edge)), next: AtomicRc::from(Rc::from_raw(link)) }, 1);
+    let pe: usize = kani::any(); kani::assume(stamp_ok(pe, c) && old_enough(pe as u32, c));   // the immediate case
+    *cell(&(*parent).state) = State::from_raw(0).add_weak(1).with_epoch(pe).as_raw();
+    PARENT = parent as usize; PARENT_WORD = cell(&(*parent).state) as usize; CHILD_WORD = cell(&(*child).state) as usize;
+    BUDGET = 0;
+    let counter = Cell::new(1usize);
+    let guard = s_cs();
+    dispose_general_node(parent, 1023, &counter, &guard);
+    assert!(POPS == 1 && DROPS == 1, "C06.cascade.tree_node_destructed");
+    assert!(CHILD_STEPS == 1, "C06.cascade.edge_after_a_null_edge_is_still_cascaded");
+    let cn = State::from_raw(CHILD_NEW);
+    assert!(cn.strong() + 1 == State::from_raw(CHILD_OLD).strong(), "C06.cascade.second_edge_child_loses_exactly_the_link_share");
+    assert!(DEFERS == (cn.strong() == 0) as u32 && (DEFERS == 0 || DEFER_PTR == child as usize), "C06.cascade.second_edge_zero_child_handled_in_same_pass");
+    assert!(DEC_S == 0, "C06.cascade.no_deferred_decrement_for_cascaded_edges");
+    kani::cover!(cn.strong() == 0, "cover.tree.child_zero");
+    kani::cover!(cn.strong() > 0, "cover.tree.child_shared");
+}}
+
 dispose_harness! {
 /// (b) leaf node at any depth: root rule, depth cap, window decision.
 #[kani::unwind(7)]
@@ -288,7 +332,7 @@ fn dispose_null() {
 #[kani::proof]
 #[kani::stub(crate::ebr_impl::cs, s_cs)]
 #[kani::stub(dispose_general_node, rec_dispose_general_node)]
-#[kani::stub(crate::ebr_impl::internal::Local::unpin, crate::ebr_impl::internal::verif_internal::s_unpin_unreachable)]
+#[kani::stub(crate::ebr_impl::internal::Local::unpin, crate::ebr_impl::internal::verif_cut::s_unpin_unreachable)]
 fn dispose_entry() {
     unsafe {
         let n = RcInner::alloc(Leaf, 1);
